@@ -462,7 +462,27 @@ func (c *Ctx) expandGuards(gs []Guard, fr *Frame, depth int) []Guard {
 		}
 		hfr := &Frame{Fn: h, Site: call, Parent: base, Depth: d}
 		inner := guardsOfInstr(yes[0])
-		if _, isK := yes[0].Results[ri].(*ssa.Const); !isK {
+		if phi, isPhi := yes[0].Results[ri].(*ssa.Phi); isPhi {
+			// `return a && b`: the result is a φ of false and b; the only way to true is the edge that carries b
+			var edge ssa.Value
+			var from *ssa.BasicBlock
+			n := 0
+			for i, e := range phi.Edges {
+				if k, isK := e.(*ssa.Const); isK && k.Value != nil && !constant.BoolVal(k.Value) {
+					continue
+				}
+				n++
+				edge, from = e, phi.Block().Preds[i]
+			}
+			if n == 1 {
+				inner = append(inner, guardsOf(from)...)
+				if _, isK := edge.(*ssa.Const); !isK {
+					inner = append(inner, Guard{Cond: edge, Polarity: true})
+				}
+			} else {
+				inner = append(inner, Guard{Cond: yes[0].Results[ri], Polarity: true})
+			}
+		} else if _, isK := yes[0].Results[ri].(*ssa.Const); !isK {
 			inner = append(inner, Guard{Cond: yes[0].Results[ri], Polarity: true})
 		}
 		for i := range inner {
